@@ -79,7 +79,7 @@ pub fn replay(ctx: &Arc<Ctx>, v: &Value) {
 
 /// complete a ciphertext for an arbitrary C1 (possibly on another curve) with the b-independent
 /// reference arithmetic, exactly as an invalid-curve attacker who knows d would
-fn complete(d: &BigUint, c1: &Pt, msg: &[u8]) -> Option<(Vec<u8>, [u8; 32])> {
+pub fn complete(d: &BigUint, c1: &Pt, msg: &[u8]) -> Option<(Vec<u8>, [u8; 32])> {
     let s = sm2::mul(d, c1);
     s.as_ref()?;
     let (x2, y2) = sm2::xy_bytes(&s);
@@ -113,7 +113,7 @@ pub fn run(ctx: &Arc<Ctx>) {
     refmodels::selftest::run(&["sm3", "sm2"]).unwrap_or_else(|e| ctx.machinery_error(format!("reference self-test failed: {}", e)));
     let pr = sm2::params();
     let (n, p) = (pr.n.clone(), pr.p.clone());
-    ctx.set_rule("base ciphertexts (message lengths {1,17,32,33}, thorough 1..=40, x 2 orders x 2 C1 encodings, made by the reference encryptor): every single-bit flip of the whole ciphertext; every truncation length; C1 replaced by (x,y+-1), (x+-1,y), (0,0), points on y^2=x^3+ax+b' (incl. an order-2 point) with C2,C3 completed correctly for that point, compressed x that is a non-residue, x+p aliases of an on-curve point with tiny x, compressed non-residue x with the body completed for the bogus root, a ciphertext whose KDF output is all zero, C1 of another ciphertext; C2/C3 swapped between two ciphertexts. The ASN.1 form through decrypt_asn1 with both values of its compressed flag: every single-bit flip of C1.x, C1.y, C3 and C2 re-encoded as a well-formed GM/T 0009 document, y negated, y + p, off-curve (x, y) with the original body and with the body completed for the foreign point, empty and truncated C2. Oracle: result must be Err — never Ok(anything), never a panic; the untouched ciphertext must decrypt.");
+    ctx.set_rule("base ciphertexts (message lengths {1,17,32,33}, thorough 1..=40, x 2 orders x 2 C1 encodings, made by the reference encryptor): every single-bit flip of the whole ciphertext; every truncation length; C1 replaced by (x,y+-1), (x+-1,y), (0,0), points on y^2=x^3+ax+b' (incl. an order-2 point) with C2,C3 completed correctly for that point, compressed x that is a non-residue, x+p aliases of an on-curve point with tiny x, compressed non-residue x with the body completed for the bogus root, a ciphertext whose KDF output is all zero, C1 of another ciphertext; C2/C3 swapped between two ciphertexts; the C1 tag byte replaced by every other value; undecodable / off-curve C1 with the body completed for a fallback point (the recipient's public key, G, zero coordinates). The ASN.1 form through decrypt_asn1 with both values of its compressed flag: every single-bit flip of C1.x, C1.y, C3 and C2 re-encoded as a well-formed GM/T 0009 document, y negated, y + p, off-curve (x, y) with the original body and with the body completed for the foreign point, empty and truncated C2. Oracle: result must be Err — never Ok(anything), never a panic; the untouched ciphertext must decrypt.");
     let mut g = SplitMix::new(ctx.seed, "c06");
     let lens: Vec<usize> = ctx.tier.pick(vec![1, 17, 32, 33], (1..=40).collect());
     let d = hb(ANNEX_D);
@@ -261,6 +261,49 @@ pub fn run(ctx: &Arc<Ctx>) {
                 cases.push(mk(raw_encode(&c1b, &other.c2, &base.c3, c1c3c2), None, "C2-from-other-ciphertext"));
                 cases.push(mk(raw_encode(&c1b, &base.c2, &other.c3, c1c3c2), None, "C3-from-other-ciphertext"));
                 cases.push(mk(raw_encode(&c1o, &base.c2, &base.c3, c1c3c2), None, "C1-from-other-ciphertext"));
+                // the tag byte of C1 replaced by every other value (02/03/04 announce a form of another length than
+                // the one the caller asked for; 06/07, the hybrid form of the same point, are left unjudged)
+                for tag in 0..=255u8 {
+                    if tag == ct[0] || tag == 0x06 || tag == 0x07 {
+                        continue;
+                    }
+                    let mut f = ct.clone();
+                    f[0] = tag;
+                    cases.push(mk(f, None, if (2..=4).contains(&tag) { "tag-of-another-form" } else { "tag-unknown" }));
+                }
+                // an undecodable / off-curve C1 with the body completed for a point a lenient decoder might fall back to:
+                // the recipient's public key [d]G (C1 := G), G itself, and the all-zero coordinates of an infinity
+                {
+                    let mut bad_c1: Vec<(&str, Vec<u8>)> = Vec::new();
+                    if compressed {
+                        let mut nx = BigUint::from(7u32);
+                        while sm2::sqrt_mod_p(&((&nx * &nx * &nx + &pr.a * &nx + &pr.b) % &p)).is_some() {
+                            nx += 1u32;
+                        }
+                        bad_c1.push(("nonresidue-x", [vec![0x02], cand(&nx).to_vec()].concat()));
+                        bad_c1.push(("x=2^256-1", [vec![0x03], vec![0xffu8; 32]].concat()));
+                        bad_c1.push(("unknown-tag", [vec![0x05], cand(&base.c1.clone().unwrap().0).to_vec()].concat()));
+                        bad_c1.push(("all-zero", vec![0u8; 33]));
+                    } else {
+                        bad_c1.push(("(1,1)", unc(&BigUint::one(), &BigUint::one())));
+                        bad_c1.push(("(0,0)", unc(&BigUint::zero(), &BigUint::zero())));
+                        bad_c1.push(("x=y=2^256-1", [vec![0x04], vec![0xffu8; 64]].concat()));
+                        let (bx, by) = base.c1.clone().unwrap();
+                        bad_c1.push(("unknown-tag", { let mut v = unc(&bx, &by); v[0] = 0x05; v }));
+                        bad_c1.push(("y+1", unc(&bx, &((&by + 1u32) % &p))));
+                        bad_c1.push(("all-zero", vec![0u8; 65]));
+                    }
+                    let (pkx, pky) = sm2::xy_bytes(&pk);
+                    let (gx, gy) = sm2::xy_bytes(&sm2::params().g);
+                    for (cl, c1b) in &bad_c1 {
+                        for (sl, x2, y2) in [("public-key", pkx, pky), ("G", gx, gy), ("zero-coordinates", [0u8; 32], [0u8; 32])] {
+                            let t = sm3::kdf(&[&x2[..], &y2[..]].concat(), msg.len());
+                            let c2: Vec<u8> = msg.iter().zip(t.iter()).map(|(a, b)| a ^ b).collect();
+                            let c3 = sm3::sm3_cat(&[&x2, &msg, &y2]);
+                            cases.push(mk(raw_encode(c1b, &c2, &c3, c1c3c2), None, &format!("undecodable-C1-{}/body-for-fallback-{}", cl, sl)));
+                        }
+                    }
+                }
                 // wrong order / wrong encoding flags are the caller's business and not judged
             }
         }
